@@ -319,7 +319,7 @@ class Predictor(ABC):
                     if scale != 1.0:
                         if self.instances_key:
                             ex["image"], ex["instances"] = apply_resizer(
-                                ex["image"], ex["instances"]
+                                ex["image"], ex["instances"], scale
                             )
                         else:
                             ex["image"] = resize_image(ex["image"], scale)
